@@ -213,21 +213,26 @@ class InternalCompiler(Compiler):
             return iret
 
         # 1. Compile the expression
-        eret = self.compile_expr(qc, expr.args[0])
+        inner = expr.args[0]
+        is_shared = isinstance(inner, Symbol) or inner in self.expqmap
+        eret = self.compile_expr(qc, inner)
 
-        # 2. If the expression is on an ancilla, perform the X updating the exp
-        if eret in qc.ancilla_lst:
+        # 2. If the expression has just been computed on an ancilla that nobody else
+        # refers to, perform the X in place updating the exp
+        if eret in qc.ancilla_lst and not is_shared and dest is None:
             qc.x(eret)
             self.expqmap[expr] = eret
             return eret
-        # 3. Otherwise map to a new qubit and perform the X
+        # 3. Otherwise xor its negation into dest (or a new qubit)
         else:
-            if dest is None:
+            is_new = dest is None
+            if is_new:
                 dest = qc.get_free_ancilla()
             qc.cx(eret, dest)
             qc.x(dest)
             qc.mark_ancilla(eret)
-            self.expqmap[expr] = dest
+            if is_new:
+                self.expqmap[expr] = dest
 
             return dest
 
